@@ -187,7 +187,7 @@ class Walker:
     def by_id(self, w, obs):
         """Look-ups by identifier through the same Wordnet: the result must be one of the enumerated entities carrying
         that identifier (identifiers may collide between lexicons of the scope: any of them is admissible), equal to it
-        when there is only one; an unknown identifier is a wn.Error.  Only what is wrong is filed."""
+        when there is only one; an unknown identifier must not produce an entity.  Only what is wrong is filed."""
         bad = {}
         for kind, getter, lister in (('words', w.word, w.words), ('senses', w.sense, w.senses), ('synsets', w.synset, w.synsets)):
             cands = {}
@@ -211,9 +211,10 @@ class Walker:
                     bad[f'{kind[:-1]}({id_!r})'] = 'the object looked up by id is not equal to the enumerated one'
             try:
                 got = getter('\x7fno such id')
-                bad[f'{kind[:-1]}(unknown id)'] = f'returned {got!r} instead of raising wn.Error'
-            except wn.Error:
-                pass
+                if got is not None:
+                    bad[f'{kind[:-1]}(unknown id)'] = f'returned {got!r} for an identifier nothing has'
+            except Exception:
+                pass        # how an unknown identifier is refused is not part of any property
         for i in obs['ilis']:
             if i and i[0] is not None:
                 self.call('Wordnet.synsets(ili)')
